@@ -3,6 +3,7 @@ package main
 import (
 	"encoding/json"
 	"fmt"
+	"strings"
 
 	stackage "github.com/JesseCoretta/go-stackage"
 )
@@ -92,11 +93,16 @@ func c13Ops(maxBatch int, classes []string, cond bool) []nestOp {
 func c13Machine(c *Ctx, kind string, maxL, maxBatch int, classes []string, cond bool) *Machine[*nestInst] {
 	ops := c13Ops(maxBatch, classes, cond)
 	name := fmt.Sprintf("C13 %s maxlen=%d batch<=%d", kind, maxL, maxBatch)
+	decorated := strings.HasSuffix(kind, "+decorated")
+	kind = strings.TrimSuffix(kind, "+decorated")
 	return &Machine[*nestInst]{
 		Name: name,
 		New: func() *nestInst {
 			if cond {
 				return &nestInst{isC: true, c: stackage.Cond("kw", stackage.Eq, "start"), m: []any{"start"}}
+			}
+			if decorated {
+				return &nestInst{s: decorate(newStackKind(kind)).SetMutex().SetErr(errCat).SetNegativeIndices(true)}
 			}
 			return &nestInst{s: newStackKind(kind)}
 		},
@@ -252,6 +258,7 @@ func c13Configs(c *Ctx) []c13Cfg {
 			out = append(out, c13Cfg{k, 3, 3, nestClasses, false})
 		}
 	}
+	out = append(out, c13Cfg{"OR+decorated", 2, 2, nestClasses, false})
 	out = append(out, c13Cfg{"CONDITION", 1, 1, []string{"prim", "nil", "stack", "alias", "ptr-alias", "cond", "cond(stack)", "aliasS", "ptr-stack"}, true})
 	return out
 }
